@@ -509,6 +509,20 @@ class CoopPool:
         self.exited = True
         return False
 
+    def shutdown(self, wait=True, cancel_futures=False):
+        """concurrent.futures.Executor.shutdown of a thread pool: optionally cancel what has not started;
+        with wait=True run everything else to completion (threads cannot be abandoned)"""
+        self.sched_point('shutdown')
+        if cancel_futures:
+            for f in self.futs:
+                if f.state == 'pending':
+                    f.state = 'cancelled'
+                    self.events.append({'k': 'cancelled_by_shutdown', 'i': f.idx})
+        if wait:
+            while any(f.state in ('pending', 'running') for f in self.futs):
+                if not self.run_pool_action(forced=True):
+                    raise Deadlock('executor shutdown cannot complete')
+
     def submit(self, fn, *args, **kwargs):
         self.sched_point('submit')
         f = CoopFuture(self, len(self.futs), fn, args, kwargs)
